@@ -59,6 +59,18 @@ def kf_fraction_with_foreign_material(check_name, desc, viol):
     return (rm is not None and rm != stored_m) and (_frac(stored_l) or _frac(rl))
 
 
+def viol_known_class(desc):
+    """The loading slice is skipped inside the open-finding class KF-C03-1 (its values are already known to be wrong)."""
+    iso = desc["iso"]
+    stored_l = (iso["units"]["loading_basis"], None)
+    stored_m = (iso["units"]["material_basis"], iso["units"]["material_unit"])
+    req = desc.get("req") or {}
+    rl, rm = req.get("lrep"), req.get("mrep")
+    rl = tuple(rl) if rl else None
+    rm = tuple(rm) if rm else None
+    return (rm is not None and rm != stored_m) and (_frac(stored_l) or _frac(rl))
+
+
 # ---- strategies ----------------------------------------------------------------------------------------------------------
 def _req():
     """Requested representation: each quantity requested (fully) or not."""
@@ -68,8 +80,9 @@ def _req():
 
 
 def strat_units():
-    return st.builds(lambda iso, req, br: {"iso": iso, "req": req, "branch": br},
-                     S.point_desc(min_points=2, max_points=10), _req(), st.sampled_from([None, "ads", "des", "all"]))
+    return st.builds(lambda iso, req, br, qa, qb: {"iso": iso, "req": req, "branch": br, "qa": qa, "qb": qb},
+                     S.point_desc(min_points=2, max_points=10), _req(), st.sampled_from([None, "ads", "des", "all"]),
+                     st.floats(0, 1), st.floats(0, 1))
 
 
 def _kw_p(prep):
@@ -152,6 +165,32 @@ def check_units(desc, ctx):
     if not allclose(got_l, cl_l, rel=1e-11):
         raise Violation(f"loading({_kw_l(lrep)}, {_kw_m(mrep)}) {got_l.tolist()} != permanently converted clone "
                         f"{cl_l.tolist()}", tag="loading_vs_clone")
+
+    # ---- limits are understood in the REQUESTED representation: a slice between limits equals the native slice of the
+    # permanently converted clone (limits placed strictly between the converted values)
+    for which, got_all, kwargs, reader in (
+            ("pressure", got_p, dict(**kwb, **_kw_p(prep)), lambda lim: clone.pressure(**kwb, limits=lim)),
+            ("loading", got_l, dict(**kwb, **_kw_l(lrep), **_kw_m(mrep)), lambda lim: clone.loading(**kwb, limits=lim))):
+        if which == "loading" and viol_known_class(desc):
+            continue
+        lo = _between_values(got_all, desc.get("qa", 0.3))
+        hi = _between_values(got_all, desc.get("qb", 0.8))
+        if lo is None or hi is None:
+            continue
+        if lo > hi:
+            lo, hi = hi, lo
+        for lim in ((lo, hi), (lo, None), (None, hi)):
+            got_lim = np.asarray(getattr(iso, which)(limits=lim, **kwargs), dtype=float)
+            exp_lim = np.array([v for v in got_all if (lim[0] is None or v >= lim[0]) and (lim[1] is None or v <= lim[1])])
+            cl_lim = np.asarray(reader(lim), dtype=float)
+            if got_lim.shape != exp_lim.shape or not allclose(got_lim, exp_lim, rel=1e-12):
+                raise Violation(f"{which}(limits={lim}, {kwargs}) of an isotherm stored in {sp}/{sl}/{sm} returned "
+                                f"{got_lim.tolist()}; the points inside the limits (in the requested representation) are "
+                                f"{exp_lim.tolist()}", tag="limits_in_requested_units")
+            if got_lim.shape != cl_lim.shape or not allclose(got_lim, cl_lim, rel=1e-11):
+                raise Violation(f"{which}(limits={lim}, {kwargs}) = {got_lim.tolist()} != native slice of the permanently "
+                                f"converted clone {cl_lim.tolist()}", tag="limits_vs_clone")
+        ctx.label("limits_checked_" + which)
 
     # the original is untouched by the reads
     if K.reps_of(iso.units) != (sp, sl, sm):
